@@ -30,6 +30,11 @@ func c10Event(c obj, kind string) obj {
 		for _, n := range names {
 			probe += "<" + n + "=${" + n + "}>"
 		}
+		// the step also repeats the block's value strings verbatim: the same text, expanded later, sees the final env
+		probe += "|"
+		for _, e := range blk {
+			probe += e.(map[string]any)["v"].(string) + ";"
+		}
 		doc := orderedJSON([][2]any{{"env", orderedJSON(pairs)}, {"steps", []any{obj{"command": probe}}}})
 		src := string(asciiJSON(doc))
 		pl, err := pipeline.Parse(strings.NewReader(src))
